@@ -88,8 +88,31 @@ def _encoder_job(args):
         out["o2_first"] = sorted(first)
         out["o2_clash"] = sorted(first & last)
         out["o2_witness"] = _w(bare & SL.last_in(SL.syms(first)), 2) if first & last else []
+    # S-NUM: what the encoders write for numbers -- str() of an int, a float (finite or not: 'inf', '-inf', 'nan') or
+    # a Decimal -- is read back as a number by the dialect's own reader and by the permissive one
+    num_written = SL.rx(r"-?([0-9]+(\.[0-9]+)?([eE][+-]?[0-9]+)?|inf|nan|Infinity|NaN)")
+    snum = {}
+    for tag, rd in (("own", own), ("omni", omni)):
+        dec = rd.classes()["decimal number"]
+        snum[tag] = {"reader": f"{rd.dcls}/{rd.gcls}", "not_numbers": _w(num_written - dec, 4)}
+    out["snum"] = snum
     out["visited"] = sorted(set(p.ctx.visited + own.ctx.visited))
     return out
+
+
+def rule_snum(repo, res, an, which=("own", "omni")):
+    """S-NUM: every text str() gives for an int, float or Decimal value (the encoders write numbers with str()) is in
+    the reader's decimal-number class -- for the dialect's own reader and for the permissive one.  A reader that
+    refuses 'inf' / 'nan' / an exponent form turns the number into a string (or an error) on reload."""
+    for e in an["encoders"]:
+        for tag in which:
+            d = e["snum"][tag]
+            res.oblige("S-NUM", f"{e['encoder']}: str() of a number is read back as a number by {d['reader']}", ok=not d["not_numbers"])
+            if d["not_numbers"]:
+                res.add(Finding("S-NUM", f"{e['encoder']}.encode_simple_value", f"numbers {d['reader']} does not read as numbers",
+                                f"{e['encoder']} writes numbers with str(); {d['reader']} does not read {d['not_numbers']} back as "
+                                "a number: a non-finite or exponent-form value comes back as a string or is refused",
+                                witness=d["not_numbers"][0], where="pvl/decoder.py"))
 
 
 def units_token_language(repo, pcls, ctx):
